@@ -11,3 +11,18 @@ import Pms.Props.C16
 #print axioms Pms.Coarse.C16_linspace_one
 #print axioms Pms.Coarse.C16_grid_positions2
 #print axioms Pms.Coarse.C16_grid_positions3
+#print axioms Pms.Coarse.C16_blur_cut
+#print axioms Pms.Coarse.C16_dist2_nonneg
+#print axioms Pms.Coarse.C16_gauss_weight
+#print axioms Pms.Coarse.C16_blur_def
+#print axioms Pms.Coarse.C16_blur_refines
+#print axioms Pms.Coarse.C16_blur_real
+#print axioms Pms.Coarse.C16_blur_rank_branches
+#print axioms Pms.Coarse.C16_time_interval
+#print axioms Pms.Coarse.C16_window_len
+#print axioms Pms.Coarse.C16_window_len_rat
+#print axioms Pms.Coarse.C16_time_results
+#print axioms Pms.Coarse.C16_time_avg
+#print axioms Pms.Coarse.C16_time_refines
+#print axioms Pms.Coarse.C16_time_middle
+#print axioms Pms.Coarse.C16_middle_central
